@@ -523,6 +523,10 @@ func c08NoEdit(c *core.Ctx, r *core.Reporter) {
 				t := info.TypeOf(ret.Results[1])
 				if t != nil && (types.Implements(t, nodeIface) || (!types.IsInterface(t) && types.Implements(types.NewPointer(t), nodeIface))) {
 					bad = "returns an AST node as replacement (the visitor would write it into the original tree)"
+				} else if b, isBasic := t.Underlying().(*types.Basic); t != nil && !types.IsInterface(t) && (!isBasic || b.Info()&types.IsString == 0) {
+					// the reduced form of a node is text: the parent reducers join strings (toSliceString keeps strings only) and
+					// the visitor reads any other replacement value by its own rules (a bool `true` deletes the element)
+					bad = "returns a " + t.String() + " as the printed form of the node, not a string (parents join strings only; the visitor treats other values as edit instructions)"
 				}
 			default:
 				bad = "returns action " + act
